@@ -105,7 +105,7 @@ def run(seed, tier, lean) -> Result:
                       'printed .mal source with json and yml model files, and in fresh interpreters with PYTHONHASHSEED in {0, 1, 4242, random}; all '
                       'serialisations must be identical to each other and to the Lean model; model serialisation and language specification compared '
                       'before/after; node objects of two graphs disjoint; non-trivial = the graph has >= 8 nodes and >= 4 edges')
-    n = 40 if tier == 'quick' else 1500
+    n = 40 if tier == 'quick' else 240
     cases = []
     for i in range(n):
         r = random.Random(rnd.getrandbits(48))
